@@ -554,6 +554,44 @@ def miri_stage(rng, shards=16, per_shard=60):
 
 
 
+def mt_stage(rng, count=40000, shards=16):
+    """thorough tier of C01: the "from another thread" clause under real concurrency (harness/src/bin/mt-harness.rs).  Every Pending child is woken
+       from a second OS thread at an arbitrary moment; the main thread is an executor that polls only after a wake-up of its own waker.  A lost
+       wake-up is a hang (20 s), which - like a panic or a wrong result - is reported with the case.  Not replayable exactly (the interleaving is
+       the machine's); support for the lock-window assumption of the model, not a proof.  -> (dict for the evidence, [(cfg, text, case)])"""
+    from concurrent.futures import ThreadPoolExecutor
+    bins, err = build_harness("std")
+    if bins is None:
+        return dict(status="skipped: the harness does not build"), []
+    cases = gen.gen_mt(rng, count, "t")
+    exe = os.path.join(bins, "mt-harness")
+    chunks = [cases[i::shards] for i in range(shards)]
+
+    def one(chunk):
+        try:
+            p = subprocess.run([exe], input="\n".join(chunk) + "\n", text=True, capture_output=True, timeout=1800)
+            return p.stdout.splitlines()
+        except subprocess.TimeoutExpired:
+            return []
+    with ThreadPoolExecutor(shards) as ex:
+        res = list(ex.map(one, chunks))
+    fails, ran, kinds = [], 0, {}
+    for chunk, out in zip(chunks, res):
+        if len(out) != len(chunk) and not (out and " HANG " in out[-1]):
+            fails.append(("std", f"mt-harness produced {len(out)} lines for {len(chunk)} cases (crash or time-out)", chunk[len(out)] if len(out) < len(chunk) else None))
+            continue
+        for case, line in zip(chunk, out):
+            ran += 1
+            k = case.split(" ")[1] + "/" + case.split(" ")[2]
+            kinds[k] = kinds.get(k, 0) + 1
+            why = gen.mt_expect(case, line)
+            if why:
+                fails.append(("std", "real threads: " + why, case))
+    return dict(status="ran", cases=ran, failures=len(fails), distribution=kinds,
+                note="every Pending child is woken from a second OS thread; the executor polls only after a wake-up; hang = 20 s without one"), fails
+
+
+
 def load_known(pid):
     p = os.path.join(ROOT, "known_findings.txt")
     out = []
@@ -652,6 +690,11 @@ def decide(pid, tier, seed):
                     diffs.append((sname, cfg, case, a, b, why))
                 elif why:
                     monfails.append((sname, cfg, case, a, why))
+    mt = None
+    if tier == "thorough" and pid == "C01":
+        mt, tfails = mt_stage(rng)
+        for (cfg, err, bad) in tfails[:10]:
+            batch_fail.append(("threads", cfg, err, bad))
     miri = None
     if tier == "thorough" and pid == "C02":
         miri, mfails = miri_stage(rng)
@@ -739,7 +782,7 @@ def decide(pid, tier, seed):
                   coq_predicate_evaluations_on_impl_traces=stats.get("coq_monitor_evals", 0),
                   monitor_errors=stats.get("monitor_errors", [])[:5],
                   traces_validated_against_impl=stats["evaluations"], correspondence_differences=len(diffs), monitor_failures=len(monfails),
-                  known_findings_matched=len(known_hits), exhaustive=False, **({"miri": miri} if miri else {})),
+                  known_findings_matched=len(known_hits), exhaustive=False, **({"miri": miri} if miri else {}), **({"real_threads": mt} if mt else {})),
               assumptions=["the model predicts the implementation on the cases that were not run",
                            "std::sync::Mutex / Arc / Waker behave as specified; wakes from other threads land in the windows where the readiness lock is free",
                            "no usize overflow"])
